@@ -32,9 +32,11 @@ ToB(c, st) == [i \in DOMAIN Corpus[c].bkeys |->
 ToA(c, st) == [i \in DOMAIN Corpus[c].akeys |->
                  st[CHOOSE j \in DOMAIN Corpus[c].bkeys : Corpus[c].bkeys[j] = Corpus[c].akeys[i]]]
 
+\* Optional record field own_depth (C21; absent = the batch-wide bound MaxDepth): a depth bound of this pair only.
+DepthOf(c) == IF "own_depth" \in DOMAIN Corpus[c] THEN Corpus[c].own_depth ELSE MaxDepth
 Init == /\ cid \in DOMAIN Corpus
         /\ s = InitSt(RA(cid)) /\ depth = 0
-Next == /\ depth < MaxDepth
+Next == /\ depth < DepthOf(cid)
         /\ SameKeys(cid)
         /\ InitOK3(RA(cid), InitSt(RA(cid))) = "T"
         /\ \E ga \in GActs(Corpus[cid].A) :
